@@ -5,7 +5,7 @@ cd "$(dirname "$0")" || exit 1
 export CARGO_NET_OFFLINE=true
 mkdir -p build evidence replays
 cp /repo/Cargo.lock bx/Cargo.lock
-(cd bx && CARGO_TARGET_DIR=../build/bx-target cargo build --release --offline --quiet) || exit 1
+(cd bx && CARGO_TARGET_DIR=../build/bx-target cargo build --release --offline --quiet --bin bx) || exit 1
 verus --version >/dev/null || exit 1
 cargo kani --version >/dev/null || exit 1
 echo setup ok
